@@ -10,7 +10,7 @@ ENTRY = dict(
                   "c05_spec_exp", "c05_observable_bits", "c05_qpd_bits", "c05_projection", "c05_scans", "c05_bases_aligned", "c05_project_bound", "c05_refuse_types",
                   "c05_refuse_num_samples", "c05_refuse_suffix", "c05_refuse_1q_unseparated", "c05_facts"],
         allowed_axioms=[],
-        facts=["value_error_sites", "c05_group_loop_calls", "c05_f2_guard", "c05_pass_order", "c05_formulas", "c05_dummy_index",
+        facts=["value_error_sites", "c05_loops", "c05_group_loop_calls", "c05_f2_guard", "c05_pass_order", "c05_formulas", "c05_dummy_index",
                "c05_register_names"],
         harness="c05",
         level_text="Unbounded theorems (any number of partitions, cuts, samples, groups, instructions; closed under the global context) "
@@ -42,7 +42,7 @@ ENTRY = dict(
                    "by the harness on the implementation's output and enter the per-case verdict.",
         assumptions=[
             "Model/Experiments.v is a hand-written model of generate_cutting_experiments, _get_mapping_ids_by_partition, "
-            "_get_bases_by_partition, _get_bases; tied to the source by the C05 correspondence and by regenerated facts (order of the "
+            "_get_bases_by_partition, _get_bases; tied to the source by the C05 correspondence and by regenerated facts (loop nest, order of the "
             "per-circuit steps, order of the three passes, the sorted(..., reverse=True) call, the coefficient formula, the projection "
             "expression, the dummy index [0], the register names, ValueError site counts)",
             "it reuses Model/Decompose.v (C14), Model/Measurement.v (C11), Model/ResetPasses.v (C12); their own correspondences tie those "
